@@ -284,6 +284,12 @@ def run_C01(ctx, E):
     stage_record_trace(ctx, E, "files", "C01_Trace", "C01_Trace.cfg", heap="16g", timeout=3000)
 
 
+def run_C03(ctx, E):
+    # the specification side of C03 is GenbankFormat.tla (its theorem Read(Write(R)) = Expected(R) is model-checked by C01_MC)
+    stage_mc_only(ctx, E, "format", "C01_MC", "C01_MC.cfg", env={"OUTFILE": os.path.join(ctx.work, "unused.ndjson")})
+    stage_record_trace(ctx, E, "build", "C03_Trace", "C03_Trace.cfg", heap="16g", timeout=3000)
+
+
 def run_C10(ctx, E):
     ctx.exhaustive = True
     for e in (("e1", "e2", "e4") if ctx.tier == "quick" else ("e1", "e2", "e3", "e4")):
@@ -301,6 +307,20 @@ _seqhash_note = ("trusted: TLC, community modules; the digest is uninterpreted i
                  "in the replayer by a from-scratch BLAKE3 transcription pinned by the official test vectors; "
                  "double-stranded inputs containing Z or (under type DNA) U are outside the strand clause and not replayed")
 PROPS = {
+    "C03": dict(run=run_C03,
+                technique="TLC trace validation of recorded genbank.Build / Write runs: the text is read by the independent "
+                          "reader of GenbankFormat.tla (whose consistency with the format's writer is model-checked), the "
+                          "re-parsed record and eight repeated writes are compared",
+                level_text="GenbankFormat.tla's reader is model-checked against its writer over 64 (record, layout) states; "
+                           "for 40 (quick) / 400 (thorough) records - images of the parser over generated files, assembled "
+                           "structures with cached location text, assembled structures without it; sequences to 2500 / "
+                           "10^5 bases, 0..12 / 0..40 features with 0..5 qualifiers, 0..5 references with remarks, extra "
+                           "keyword blocks, definitions up to 2000 characters - TLC requires (i) its reader recovers the "
+                           "record from Build's bytes (files up to 700 lines), (ii) Parse(Build(x)) = x in every field and "
+                           "every Location structure, (iii) eight Builds are byte-identical",
+                level_note="trusted: TLC, community modules, the projection of poly.Sequence; there is no exhaustive S->I "
+                           "enumeration of records for this property (records are generated at random)",
+                rule="I->S: one event per record (8 Builds + Parse each)"),
     "C01": dict(run=run_C01,
                 technique="TLC evaluation of an independent GenBank flat-file writer (layout styles) and reader "
                           "(GenbankFormat.tla) with the theorem Read(Write(R, style)) = Expected(R); every laid-out file "
